@@ -106,7 +106,7 @@ theorem takeOp_spec {kf : KF} (hkf : KFOK kf) (b? : Option Base) (hbase : BaseOK
     rw [hd] at hs hbl
     exact fin _ rfl (by rw [hd]; exact htr.gauge.ingestKey hkf k hs hbl)
   | upd pos pn =>
-    obtain ⟨b, eb, h1⟩ := hop
+    obtain ⟨b, eb, h1, _⟩ := hop
     subst eb
     have hp : pos < b.node.items.length := by have := hpcle b rfl; omega
     have hd : ekeys (denOp (some b) (.upd pos pn)) = [b.node.items[pos].key] := by
@@ -117,7 +117,7 @@ theorem takeOp_spec {kf : KF} (hkf : KFOK kf) (b? : Option Base) (hbase : BaseOK
       simp [Gauge.ingestOp, Node.key_of_lt _ _ hp]
     exact fin _ hi (by rw [hd]; exact htr.gauge.ingestKey hkf _ hs hbl)
   | keep s e sum =>
-    obtain ⟨b, eb, h1, h2, h3⟩ := hop
+    obtain ⟨b, eb, h1, h2, h3, _⟩ := hop
     subst eb
     have hel : e ≤ b.node.items.length := by have := hpcle b rfl; omega
     rw [denOp_keep_keys] at hs hbl
